@@ -26,7 +26,7 @@ type Mutex struct {
 }
 
 func (m *Mutex) Lock() {
-	if s := simrt.InSim(); s != nil {
+	if s := simrt.InSimGoroutine(); s != nil {
 		s.LockMutex(&m.core, false)
 		return
 	}
@@ -34,7 +34,7 @@ func (m *Mutex) Lock() {
 }
 
 func (m *Mutex) Unlock() {
-	if s := simrt.InSim(); s != nil {
+	if s := simrt.InSimGoroutine(); s != nil {
 		s.UnlockMutex(&m.core, false)
 		// a preemption point: whatever the caller does next (without the lock) may be overtaken
 		// by whoever gets the lock now
@@ -45,7 +45,7 @@ func (m *Mutex) Unlock() {
 }
 
 func (m *Mutex) TryLock() bool {
-	if s := simrt.InSim(); s != nil {
+	if s := simrt.InSimGoroutine(); s != nil {
 		return s.TryLockMutex(&m.core)
 	}
 	return m.real.TryLock()
@@ -57,7 +57,7 @@ type RWMutex struct {
 }
 
 func (m *RWMutex) Lock() {
-	if s := simrt.InSim(); s != nil {
+	if s := simrt.InSimGoroutine(); s != nil {
 		s.LockMutex(&m.core, false)
 		return
 	}
@@ -65,7 +65,7 @@ func (m *RWMutex) Lock() {
 }
 
 func (m *RWMutex) Unlock() {
-	if s := simrt.InSim(); s != nil {
+	if s := simrt.InSimGoroutine(); s != nil {
 		s.UnlockMutex(&m.core, false)
 		return
 	}
@@ -73,7 +73,7 @@ func (m *RWMutex) Unlock() {
 }
 
 func (m *RWMutex) RLock() {
-	if s := simrt.InSim(); s != nil {
+	if s := simrt.InSimGoroutine(); s != nil {
 		s.LockMutex(&m.core, true)
 		return
 	}
@@ -81,7 +81,7 @@ func (m *RWMutex) RLock() {
 }
 
 func (m *RWMutex) RUnlock() {
-	if s := simrt.InSim(); s != nil {
+	if s := simrt.InSimGoroutine(); s != nil {
 		s.UnlockMutex(&m.core, true)
 		return
 	}
@@ -89,7 +89,7 @@ func (m *RWMutex) RUnlock() {
 }
 
 func (m *RWMutex) TryLock() bool {
-	if s := simrt.InSim(); s != nil {
+	if s := simrt.InSimGoroutine(); s != nil {
 		return s.TryLockMutex(&m.core)
 	}
 	return m.real.TryLock()
@@ -112,7 +112,7 @@ type WaitGroup struct {
 }
 
 func (wg *WaitGroup) Add(delta int) {
-	if s := simrt.InSim(); s != nil {
+	if s := simrt.InSimGoroutine(); s != nil {
 		wg.mu.Lock()
 		wg.n += delta
 		n := wg.n
@@ -131,7 +131,7 @@ func (wg *WaitGroup) Add(delta int) {
 func (wg *WaitGroup) Done() { wg.Add(-1) }
 
 func (wg *WaitGroup) Wait() {
-	if s := simrt.InSim(); s != nil {
+	if s := simrt.InSimGoroutine(); s != nil {
 		wg.mu.Lock()
 		zero := wg.n == 0
 		wg.mu.Unlock()
